@@ -31,7 +31,7 @@ TRUSTED = [
     "modelled not verified: registers and every other part of the compiler; metatables never change after creation "
     "(so the run-time 'missing __close' check in cleanupCloseStack is not exercised); handlers are atomic (record, maybe raise)",
 ]
-THEOREMS_IM = ["C10_compile_correct_partial", "C10_tailcall_disabled_with_pending_close"]
+THEOREMS_IM = ["C10_compile_correct_partial", "C10_compile_correct_nogoto_partial", "C10_tailcall_disabled_with_pending_close"]
 
 # ------------------------------------------------------------------ programs
 # stmt: ('L', v) ('D', b) ('W', b) ('U', b) ('F', v, b) ('I', b) ('B',) ('G', l) (':', l) ('M', n)
